@@ -199,6 +199,13 @@ def m2_accessor(run, project, L):
                 ok = True
     run.ob("M2", ok, "attributes() enumerates every mask", "attributes() no longer yields all public mask attributes",
            module=mod, node=a, func="attributes", construct="attributes() members")
+    # mask objects define no ordering: sorting them needs a key
+    has_lt = any(isinstance(c_, ast.Call) and call_name(c_) == "setattr" and len(c_.args) >= 2 and isinstance(c_.args[1], ast.Constant)
+                 and c_.args[1].value in ("__lt__", "__gt__") for c_ in ast.walk(R["dec"]))
+    for c_ in [c_ for c_ in ast.walk(a) if isinstance(c_, ast.Call) and call_name(c_) == "sorted"]:
+        run.ob("M2", has_lt or any(k.arg == "key" for k in c_.keywords), "attributes(): masks are sorted by a key",
+               f"`{norm(c_)[:70]}` sorts the mask objects themselves, which define no ordering: attributes() raises TypeError and no "
+               "attribute word can be printed", module=mod, node=c_, func="attributes", construct="attributes() sort key")
     # ... and the decorator hands the type back with attributes() on it (the printer asks `hasattr(value, "attributes")` to
     # decide whether a value gets bit rows): on every completing path of the decorator, unless the class brings its own
     dec = R["dec"]
